@@ -348,6 +348,28 @@ def t_cy_vector():
     v.clear()
     return tot, v.size(), vv.size(), vv[0][0], vv[1].size()
 
+def t_cy_float32(x):
+    cdef float f = 0.1
+    cdef float g = 16777217.0
+    cdef float h = 0.5
+    cdef float y = x
+    cdef double d = 0.1
+    return f == 0.1, g, h, d == 0.1, y, f > 0.1
+
+def t_cy_vector_resize():
+    cdef vector[vector[int]] vv
+    cdef vector[double] v
+    vv.resize(2)
+    vv[1].push_back(3)
+    vv.resize(3)
+    vv.resize(3)                 # same size again: contents stay
+    vv[1].push_back(4)
+    v.resize(3)
+    v[1] = 2.5
+    v.resize(2)
+    v.push_back(7.0)
+    return vv.size(), vv[0].size(), vv[1].size(), vv[1][1], vv[2].size(), v.size(), v[0], v[1], v.back(), v.empty(), v.front()
+
 def t_cy_nogil_with(n):
     cdef int i, s = 0
     with nogil:
@@ -361,6 +383,8 @@ CYTHON_EXPECT = {
     "t_cy_libm_unsigned": ((3,), (1.5, -2.0, -1.0, 3.0, -3.0, 4294967295, 2, -1, 0.5, 0.25)),
     "t_cy_class": ((), ((7.0 / 3, 3, 3), (3.0, 2, 2), 3, 2, 2, True)),
     "t_cy_vector": ((), (16.5, 0, 2, 7, 0)),
+    "t_cy_float32": ((2.25,), (False, 16777216.0, 0.5, True, 2.25, True)),
+    "t_cy_vector_resize": ((), (3, 0, 2, 4, 0, 3, 0.0, 2.5, 7.0, False, 0.0)),
     "t_cy_nogil_with": ((5,), 10),
 }
 
